@@ -153,6 +153,8 @@ pub struct Gen<'t, 'a, 'g> {
     pub block_depth: usize,
     /// >0 while inside a block that shadows an outer binding
     pub shadow_depth: usize,
+    /// >0 while generating the body of a finally block
+    pub in_finally: usize,
     /// round-robin counters so that operator × type pairs and library entries are all hit
     pub rr: BTreeMap<&'static str, usize>,
 }
@@ -177,6 +179,7 @@ impl<'t, 'a, 'g> Gen<'t, 'a, 'g> {
             stmt_budget: budget,
             block_depth: 0,
             shadow_depth: 0,
+            in_finally: 0,
             rr: BTreeMap::new(),
         }
     }
